@@ -850,10 +850,23 @@ func (e *Env) evalCall(n *ECall) SVal {
 		}
 		a := x.localByNameAt(e.fn, id.Name, e.at)
 		if len(n.Args) == 2 {
+			if hid, isHere := n.Args[1].(*EIdent); isHere && hid.Name == "here" {
+				// local(name, here): in an invariant of loop N, the declaration of that name in scope at the loop - the latest one
+				// before the loop's position. Unlike an ordinal it does not move when a declaration of the same name is added elsewhere.
+				if e.loop == nil || e.loop.header == nil {
+					sfail("local(name, here) outside a loop invariant")
+				}
+				a = x.localByNameAt(e.fn, id.Name, firstPos(e.loop.header))
+				if a == nil || !a.Pos().IsValid() || a.Pos() > firstPos(e.loop.header) {
+					sfail("local(%s, here): no declaration before the loop", id.Name)
+				}
+				ad := x.resolveAddr(a)
+				return SVal{T: x.loadAddr(e.locState(ad), ad), Ty: goT(ad.Typ)}
+			}
 			// local(name, K): the K-th declaration of that name in source order (several scopes of one function may reuse a name)
 			kl, ok := n.Args[1].(*EInt)
 			if !ok {
-				sfail("local(name, K) needs a literal ordinal")
+				sfail("local(name, K) needs a literal ordinal or `here`")
 			}
 			var all []*ssa.Alloc
 			for _, b := range e.fn.Blocks {
